@@ -362,7 +362,7 @@ func oracleWF(c *Case) CaseResult {
 	if d := validateResult(got, c.Window, typ); d != "" {
 		res.Fail = d
 		res.Impl = trunc(got.String(), 500)
-		if strings.HasPrefix(d, "duplicate label set") {
+		if strings.HasPrefix(d, "duplicate label set") && !strings.HasPrefix(c.Query, "histogram_quantile(") {
 			res.Tags = append(res.Tags, "duplicate-series")
 			if binopSignatureCollision(c) {
 				res.Tags = append(res.Tags, "binop-signature-collision")
